@@ -5,8 +5,8 @@ from props.C01 import gp
 def obligations(tier):
     q = tier == 'quick'
     obs = []
-    for fl in (('qsbr',) if q else ('qsbr', 'mb', 'memb')):      # qsbr fits the per-change budget (mb: 15 min per query)
-        obs += gp('%s_dyn_reader' % fl, fl, ['updater', 'reader_dyn'], 3, dyn=1, live=not q,       # the bounded-completion query takes 20 min: thorough tier
+    for fl in (('qsbr',) if q else ('qsbr', 'mb')):      # qsbr fits the per-change budget (mb: 15 min per query)
+        obs += gp('%s_dyn_reader' % fl, fl, ['updater', 'reader_dyn'], 3, dyn=1, live=(not q and fl == 'qsbr'),       # the bounded-completion query takes 20 min: thorough tier
                   desc='%s: reader registers, runs a section, unregisters, registers again, runs a section, unregisters - concurrently with both scans of synchronize_rcu; '
                        'C01 oracles; registry empty and well formed at quiescence; everybody finishes' % fl,
                   wit=['reader registered, ran, unregistered twice'])
